@@ -94,7 +94,7 @@ def scenario_lines(sc):
     n = len(sc.topology)
     L.append(f"topo {n} " + " ".join(str(as_int(x)) for row in sc.topology for x in row))
     for (a, b), allowed in sc.firewall.items():
-        L.append(f"fw {a} {b} " + " ".join(str(S[x]) for x in sorted(allowed, key=lambda x: S[x])))
+        L.append((f"fw {a} {b} " + " ".join(str(S[x]) for x in sorted(allowed, key=lambda x: S[x]))).rstrip())
 
     def fl(d):
         return f"{len(d)} " + " ".join(str(int(bool(v))) for v in d.values())
@@ -105,7 +105,7 @@ def scenario_lines(sc):
         for src, den in h.firewall.items():
             if not (isinstance(src, tuple) and len(src) == 2):
                 raise Untranslatable(f"host firewall key {src!r} is not an address")
-            L.append(f"hfw {addr[0]} {addr[1]} {src[0]} {src[1]} " + " ".join(str(S[x]) for x in den))
+            L.append((f"hfw {addr[0]} {addr[1]} {src[0]} {src[1]} " + " ".join(str(S[x]) for x in den)).rstrip())
     for addr, v in sc.sensitive_hosts.items():
         L.append(f"sens {addr[0]} {addr[1]} {sv(v)}")
     for e in sc.exploits.values():
